@@ -538,6 +538,13 @@ func c08Dag(c *work.Ctx) {
 			}
 			return n
 		}},
+		{"recursive struct reached only through an embedded member", func(d int) interface{} {
+			n := &universe.RecKid{Name: "leaf"}
+			for i := 0; i < d && i < 50; i++ {
+				n = &universe.RecKid{Name: "n", Val: i, Kids: []*universe.RecKid{n}}
+			}
+			return universe.EmbRec{RecKid: *n, Name: "outer"}
+		}},
 		{"[]interface{} nested, every level holds the same nil-interface leaf twice", func(d int) interface{} {
 			leaf := &c08DagLeaf{}
 			var v interface{} = []interface{}{leaf, leaf}
